@@ -39,6 +39,17 @@ def check(ctx, cfg):
     r4(ctx, cfg)
     r5(ctx, cfg)
     r6(ctx, cfg)
+    r7(ctx, cfg)
+
+
+def r7(ctx, cfg):
+    """premise shared with C06: a contract's window [prefix, upper_bound(prefix)) is read through the stack of
+    transaction overlays; its upper bound is the raw prefix of the neighbouring namespace, so the overlay must treat
+    the end bound as exclusive and must record every write/removal in its read view (otherwise a neighbour's pending
+    write, or a value already removed, shows up in the contract's reads)"""
+    from rules import C06
+    C06.r5(ctx, cfg, R="C08.R7")
+    C06.r2(ctx, cfg, R="C08.R7")
 
 
 def r1(ctx, cfg):
